@@ -217,8 +217,8 @@ class PackageSpecification:
             # (They must still meet certain conditions. See is_same_source_as().)
             result ^= (
                 hash(self._source_type)
-                ^ hash(self._source_url)
-                ^ hash(self._source_subdirectory)
+                ^ hash(self._source_url or None)
+                ^ hash(self._source_subdirectory or None)
             )
 
         return result
